@@ -186,7 +186,8 @@ extern "C" void w_remove1(long long* item, long long* key, int themax, int* thes
 #endif
 
 #ifdef INST_removePerm
-extern "C" void w_removePerm(long long* item, long long* key, int themax, int* thesize, int* thenum, int* firstfree, int* perm)
+extern "C" void w_removePerm(long long* item, long long* key, int themax, int* thesize, int* thenum, int* firstfree, int* perm,
+                             const int* rank, const int* cnt, const int* rank2)
 {
    MKSET(s);
    s.remove(perm);
@@ -196,7 +197,8 @@ extern "C" void w_removePerm(long long* item, long long* key, int themax, int* t
 
 #ifdef INST_removeNums
 extern "C" void w_removeNums(long long* item, long long* key, int themax, int* thesize, int* thenum, int* firstfree,
-                             const int* nums, int n, int* perm)
+                             const int* nums, int n, int* perm, const int* rank, const int* cnt, const int* rank2,
+                             const int* isrem, const int* wit)
 {
    MKSET(s);
    s.remove(nums, n, perm);
@@ -205,7 +207,7 @@ extern "C" void w_removeNums(long long* item, long long* key, int themax, int* t
 #endif
 
 #ifdef INST_clear
-extern "C" void w_clear(long long* item, long long* key, int themax, int* thesize, int* thenum, int* firstfree)
+extern "C" void w_clear(long long* item, long long* key, int themax, int* thesize, int* thenum, int* firstfree, const int* rank)
 {
    MKSET(s);
    s.clear();
